@@ -226,7 +226,7 @@ func runC04(c *Ctx) {
 					x.Subject = "sub"
 				}
 				// a v1 generic token's kind is its top-level type: keep it generic
-				x.Type = v1.ClaimType([]string{"", "generic", "my_custom_kind"}[g.rng.Intn(3)])
+				x.Type = v1.ClaimType([]string{"", "generic", "my_custom_kind", "User", "ACCOUNT", "Activation", "oPerator", "\u017ferver"}[g.rng.Intn(8)])
 				if x.Data != nil && g.rng.Intn(3) == 0 {
 					// the free-form data may use the names the re-homing writes to
 					x.Data["type"] = "inner"
